@@ -12,7 +12,8 @@ connection: every later frame — the OK, after SUB the message bodies — leave
 also under `--tls-required`, and the client, decoding with the negotiated stack, loses them.
 
 Model `Nsq.Model.WireStack` (segments tagged with the transport written to and the transport
-the client reads), tree selected by `Nsq.Tie.WireStack.treeFixed` (regenerated), white-box leg
+the client reads), tree selected by `Nsq.Tie.WireStack.treeFixed` (regenerated; F30 = /repo d6aa4e3 is committed,
+the tie accepts only its shape and decides `treeFixed = true`: `this_tree_full`), white-box leg
 `stack` and the double-IDENTIFY class of the end-to-end oracle (harness/e1).
 -/
 namespace Nsq.Props.C07Stack
@@ -72,8 +73,8 @@ theorem output_on_negotiated_transport_partial (cap : Nat) (ops : List ConnOp)
   rw [good_seen c g]
   exact tstream false cap ops
 
-/-- The statement about THIS source tree (`Tie.WireStack.treeFixed` is computed from the regenerated
-`SetOutputBuffer` statements): full once F30 is in, the partial one before. -/
+/-- The statement parametrised by the tree (`Tie.WireStack.treeFixed` is computed from the regenerated
+`SetOutputBuffer` statements): full with F30, the partial one before. For the checked tree see `this_tree_full`. -/
 theorem this_tree (cap : Nat) (ops : List ConnOp)
     (h : Nsq.Tie.WireStack.treeFixed = true ∨ NoRebufferAfterUpgrade ops = true) :
     (trun Nsq.Tie.WireStack.treeFixed (tconn0 cap) ops).OnNegotiated ∧
@@ -84,6 +85,14 @@ theorem this_tree (cap : Nat) (ops : List ConnOp)
     rcases h with h | h
     · rw [hf] at h; exact absurd h (by decide)
     · exact ⟨(output_on_negotiated_transport_partial cap ops h).1, (output_on_negotiated_transport_partial cap ops h).2.1⟩
+
+/-- THIS tree (F30 = /repo d6aa4e3 is committed; audit B12): `Tie.WireStack.setOutputBuffer_shape` accepts only the
+F30 shape, the facts decide `treeFixed = true`, and the clause holds for EVERY schedule with no hypothesis. A tree that
+reverts F30 fails `tree_fixed` and this theorem with it. -/
+theorem this_tree_full (cap : Nat) (ops : List ConnOp) :
+    (trun Nsq.Tie.WireStack.treeFixed (tconn0 cap) ops).OnNegotiated ∧
+    (trun Nsq.Tie.WireStack.treeFixed (tconn0 cap) ops).leaked = [] :=
+  this_tree cap ops (Or.inl Nsq.Tie.WireStack.tree_fixed)
 
 /-- In BOTH trees no byte is lost, duplicated or reordered on the server side: the defect is where
 the bytes go, not which bytes. -/
@@ -115,6 +124,8 @@ example : NoRebufferAfterUpgrade (secondIdentify [1]) = false := by decide
 example : let c := trun true (tconn0 8) [.upgrade 8, .sendResponse okFrame, .setOutputBuffer 64, .upgrade 64,
       .sendResponse okFrame, .setOutputBuffer 1, .sendResponse okFrame]
     c.segs.map (fun s => (s.dest, s.want, s.data.length)) = [(0, 0, 0), (1, 1, 10), (2, 2, 20)] := by decide
-example : Nsq.Tie.WireStack.treeFixed = true ∨ Nsq.Tie.WireStack.treeFixed = false := by decide
+/-- the tree's model on the second-IDENTIFY schedule: nothing leaked -/
+example : (trun Nsq.Tie.WireStack.treeFixed (tconn0 16384) (secondIdentify [83, 69, 67, 82, 69, 84])).leaked = [] :=
+  (this_tree_full 16384 _).2
 
 end Nsq.Props.C07Stack
